@@ -34,6 +34,19 @@ VARIANTS = {
         V('solver::propagate: solved flaw not logged', 'C08.R6', 'solver/solver.cpp', "trail.back().solved_flaws.insert(&r->effect);", "{}"),
         V('solver::propagate: activated flaw not logged', 'C08.R6', 'solver/solver.cpp', "                    if (!root_level())\n                        trail.back().new_flaws.insert(f);\n", ""),
     ],
+    'C09': [
+        V('assert_upper only: non-strict conflict test', 'C09.R1', LRA, "        else if (val < lb(x_i))\n        {\n            cnfl.push_back(!p);", "        else if (val <= lb(x_i))\n        {\n            cnfl.push_back(!p);"),
+        V('check: basic variable reason dropped in the upper arm', 'C09.R1', LRA, "                    cnfl.push_back(!c_bounds[lra_theory::ub_index(x_i)].reason);\n", ""),
+        V('check: lower arm blames the wrong bound', 'C09.R2', LRA, "                        if (is_positive(c))\n                            cnfl.push_back(!c_bounds[lra_theory::ub_index(v)].reason);", "                        if (is_positive(c))\n                            cnfl.push_back(!c_bounds[lra_theory::lb_index(v)].reason);"),
+        V('propagate: negated geq without -epsilon', 'C09.R3', LRA, "assert_upper(a->x, a->v - inf_rational(rational::ZERO, rational::ONE), p)", "assert_upper(a->x, a->v, p)"),
+        V('propagate: asserted leq sets the lower bound', 'C09.R3', LRA, "if (!((a->o == op::leq) ? assert_upper(a->x, a->v, p) : assert_lower(a->x, a->v, p)))", "if (!((a->o == op::leq) ? assert_lower(a->x, a->v, p) : assert_upper(a->x, a->v, p)))"),
+        V('pivot: leaving row stays in the watch lists', 'C09.R4', LRA, "        for ([[maybe_unused]] const auto &[v, c] : expr.vars)\n            t_watches[v].erase(ex_row);\n", ""),
+        V('pivot: sign of the division', 'C09.R4', LRA, "expr /= -cf;", "expr /= cf;"),
+        V('pivot_and_update: leaving row updated twice', 'C09.R4', LRA, "            if (c->x != x_i)\n            { // x_k += a_kj * theta..", "            if (true)\n            { // x_k += a_kj * theta.."),
+        V('assertion::propagate_ub only: polarity', 'C09.R1', 'smt/arith/lra/lra_constraint.cpp', "                    th.record({b, !th.c_bounds[lra_theory::ub_index(x_i)].reason});", "                    th.record({!b, !th.c_bounds[lra_theory::ub_index(x_i)].reason});"),
+        V('row::propagate_ub only: bound of the wrong side', 'C09.R1', 'smt/arith/lra/lra_constraint.cpp', "                        ub += c * th.ub(c_v);\n                        th.cnfl.push_back(!th.c_bounds[lra_theory::ub_index(c_v)].reason);", "                        ub += c * th.ub(c_v);\n                        th.cnfl.push_back(!th.c_bounds[lra_theory::lb_index(c_v)].reason);", nth=1),
+        V('new writer of the values', 'C09.R4', LRA, "    void lra_theory::pop() noexcept\n    {", "    void lra_theory::pop() noexcept\n    {\n        if (!vals.empty())\n            vals[0] = inf_rational(rational::ZERO);"),
+    ],
     'C10': [
         V('idl negated edge without -1', 'C10.R2', DL, "propagate(dist->to, dist->from, -dist->dist - 1);", "propagate(dist->to, dist->from, -dist->dist);"),
         V('rdl conflict test non-strict', 'C10.R2', RDL, "if (_dists[dist->to][dist->from] < -dist->dist)", "if (_dists[dist->to][dist->from] <= -dist->dist)"),
